@@ -7,8 +7,12 @@ import (
 	"go/token"
 	"go/types"
 	"regexp"
+	"sort"
+	"strconv"
 	"strings"
 	"text/template/parse"
+
+	"golang.org/x/tools/go/packages"
 )
 
 func init() {
@@ -44,6 +48,9 @@ func runC18(c *Config, r *Report) {
 		return
 	}
 	pos := func(p token.Pos) string { return prog.pos(p) }
+	c18R7(prog, pk, r)
+	c18R8(prog, pk, r)
+	c18R9(prog, pk, r)
 	// the loop over scope names and the type switch over the object
 	var ts *ast.TypeSwitchStmt
 	var loop *ast.RangeStmt
@@ -643,4 +650,274 @@ func c18R5(prog *Prog, pk interface{}, fs map[string]*FuncInfo, r *Report) {
 	})
 	r.Check(marks && extraCond == "", "R18.5", "genContent/qualifier-marks-imports", prog.pos(qual.Pos()), "every foreign package named in a signature is marked as imported",
 		"the qualifier used to print method signatures "+map[bool]string{true: extraCond, false: "never marks a package as imported"}[marks]+": a package that only appears in the signature of a promoted interface method is not imported by the generated file, which does not compile")
+}
+
+func init() {
+	ruleText["R18.7"] = "no method of Extractor stores into a field of its receiver or updates a map held in one: an extraction is a function of the package and the configuration, not of the packages extracted before (the import-marking qualifier must run for every type printed in every wrapper)"
+	ruleText["R18.8"] = "the separator joined between build tags agrees with the constraint line of the template ('// +build' joins with ',', '//go:build' with ' && '), and the removal of a leading separator tests that same separator"
+	ruleText["R18.9"] = "no mutating method of *big.Int is applied to a value obtained from (*big.Rat).Denom/Num or from a constant: those alias the constant held by the type-checked package"
+}
+
+func c18R7(prog *Prog, pk *packages.Package, r *Report) {
+	info := pk.TypesInfo
+	n := 0
+	for name, fi := range funcs(pk) {
+		if fi.Decl.Body == nil || fi.Decl.Recv == nil || len(fi.Decl.Recv.List) != 1 || len(fi.Decl.Recv.List[0].Names) != 1 || !strings.HasPrefix(name, "Extractor.") {
+			continue
+		}
+		n++
+		recv := info.ObjectOf(fi.Decl.Recv.List[0].Names[0])
+		var bad []string
+		rootIsRecv := func(e ast.Expr) bool {
+			for {
+				switch x := unparen(e).(type) {
+				case *ast.SelectorExpr:
+					e = x.X
+				case *ast.IndexExpr:
+					e = x.X
+				case *ast.StarExpr:
+					e = x.X
+				case *ast.Ident:
+					return info.ObjectOf(x) == recv
+				default:
+					return false
+				}
+			}
+		}
+		ast.Inspect(fi.Decl.Body, func(m ast.Node) bool {
+			switch x := m.(type) {
+			case *ast.AssignStmt:
+				for _, l := range x.Lhs {
+					if _, isIdent := unparen(l).(*ast.Ident); !isIdent && rootIsRecv(l) {
+						bad = append(bad, types.ExprString(l)+" at "+prog.pos(x.Pos()))
+					}
+				}
+			case *ast.IncDecStmt:
+				if _, isIdent := unparen(x.X).(*ast.Ident); !isIdent && rootIsRecv(x.X) {
+					bad = append(bad, types.ExprString(x.X)+" at "+prog.pos(x.Pos()))
+				}
+			case *ast.CallExpr:
+				if id := identOf(x.Fun); id != nil && id.Name == "delete" && len(x.Args) > 0 && rootIsRecv(x.Args[0]) {
+					bad = append(bad, "delete("+types.ExprString(x.Args[0])+") at "+prog.pos(x.Pos()))
+				}
+			}
+			return true
+		})
+		sort.Strings(bad)
+		r.Check(len(bad) == 0, "R18.7", name+"/keeps-no-state-in-the-extractor", prog.pos(fi.Decl.Pos()), "the receiver is read-only configuration",
+			name+" stores into its receiver ("+strings.Join(bad, "; ")+"): what the wrapper of a package contains then depends on the packages extracted before with the same Extractor (a memoised type string skips the import-marking qualifier, so the second wrapper misses imports and does not compile)")
+	}
+	if n == 0 {
+		r.Errorf("R18.7: no method of Extractor found")
+	}
+}
+
+func c18R8(prog *Prog, pk *packages.Package, r *Report) {
+	info := pk.TypesInfo
+	// the constraint line of the template
+	form := ""
+	var modelPos token.Pos
+	for _, f := range pk.Syntax {
+		ast.Inspect(f, func(m ast.Node) bool {
+			bl, ok := m.(*ast.BasicLit)
+			if !ok || bl.Kind != token.STRING || !strings.Contains(bl.Value, ".BuildTags") {
+				return true
+			}
+			modelPos = bl.Pos()
+			switch {
+			case strings.Contains(bl.Value, "// +build {{.BuildTags}}") || strings.Contains(bl.Value, "// +build {{ .BuildTags }}"):
+				form = "+build"
+			case strings.Contains(bl.Value, "//go:build {{.BuildTags}}") || strings.Contains(bl.Value, "//go:build {{ .BuildTags }}"):
+				form = "go:build"
+			}
+			return true
+		})
+	}
+	if form == "" {
+		r.Errorf("R18.8: the constraint line of the template ({{.BuildTags}}) was not recognised")
+		return
+	}
+	wantSep := map[string]string{"+build": ",", "go:build": " && "}[form]
+	// separators: leading string literal of every expression added to a string variable that flows into "BuildTags"
+	var tagVar types.Object
+	for _, f := range pk.Syntax {
+		ast.Inspect(f, func(m ast.Node) bool {
+			kv, ok := m.(*ast.KeyValueExpr)
+			if !ok {
+				return true
+			}
+			if tv, ok := info.Types[kv.Key]; ok && tv.Value != nil && tv.Value.ExactString() == `"BuildTags"` {
+				if id := identOf(kv.Value); id != nil {
+					tagVar = info.ObjectOf(id)
+				}
+			}
+			return true
+		})
+	}
+	if tagVar == nil {
+		r.Errorf("R18.8: the variable handed to the template as BuildTags was not found")
+		return
+	}
+	var bad []string
+	nsep := 0
+	leading := func(e ast.Expr) (string, bool) {
+		for {
+			be, ok := unparen(e).(*ast.BinaryExpr)
+			if !ok || be.Op != token.ADD {
+				break
+			}
+			e = be.X
+		}
+		if tv, ok := info.Types[e]; ok && tv.Value != nil && tv.Value.Kind() == constant.String {
+			return constant.StringVal(tv.Value), true
+		}
+		return "", false
+	}
+	trimOK, trimSeen := true, false
+	for _, f := range pk.Syntax {
+		ast.Inspect(f, func(m ast.Node) bool {
+			switch x := m.(type) {
+			case *ast.AssignStmt:
+				if x.Tok == token.ADD_ASSIGN && len(x.Lhs) == 1 {
+					if id := identOf(x.Lhs[0]); id != nil && info.ObjectOf(id) == tagVar {
+						if s, ok := leading(x.Rhs[0]); ok {
+							nsep++
+							if !strings.HasPrefix(s, wantSep) || (wantSep == "," && strings.HasPrefix(s, ", ")) {
+								bad = append(bad, fmt.Sprintf("%q at %s", s, prog.pos(x.Pos())))
+							}
+						}
+					}
+				}
+			case *ast.BinaryExpr:
+				// buildTags[0] == 'c'
+				if x.Op == token.EQL || x.Op == token.NEQ {
+					if ix, ok := unparen(x.X).(*ast.IndexExpr); ok {
+						if id := identOf(ix.X); id != nil && info.ObjectOf(id) == tagVar {
+							trimSeen = true
+							if tv, ok := info.Types[x.Y]; ok && tv.Value != nil {
+								if v, exact := constant.Int64Val(tv.Value); !exact || byte(v) != wantSep[0] {
+									trimOK = false
+								}
+							}
+						}
+					}
+				}
+			case *ast.CallExpr:
+				if isCallTo(info, x, "strings.TrimPrefix", "strings.HasPrefix", "strings.CutPrefix") && len(x.Args) == 2 {
+					if id := identOf(x.Args[0]); id != nil && info.ObjectOf(id) == tagVar {
+						trimSeen = true
+						if tv, ok := info.Types[x.Args[1]]; ok && tv.Value != nil && tv.Value.Kind() == constant.String {
+							if constant.StringVal(tv.Value) != wantSep {
+								trimOK = false
+							}
+						}
+					}
+				}
+			}
+			return true
+		})
+	}
+	// the release tags built by the helper returning the initial value
+	for _, f := range pk.Syntax {
+		ast.Inspect(f, func(m ast.Node) bool {
+			fd, ok := m.(*ast.FuncDecl)
+			if !ok || fd.Body == nil || fd.Name.Name != "genBuildTags" {
+				return true
+			}
+			ast.Inspect(fd.Body, func(k ast.Node) bool {
+				if bl, ok := k.(*ast.BasicLit); ok && bl.Kind == token.STRING {
+					if s, _ := strconv.Unquote(bl.Value); strings.Contains(s, "!") {
+						nsep++
+						if !strings.HasPrefix(s, wantSep+"!") {
+							bad = append(bad, fmt.Sprintf("%q at %s", s, prog.pos(bl.Pos())))
+						}
+					}
+				}
+				return true
+			})
+			return false
+		})
+	}
+	if nsep < 3 {
+		r.Errorf("R18.8: only %d tag separators found", nsep)
+		return
+	}
+	sort.Strings(bad)
+	r.Check(len(bad) == 0 && trimSeen && trimOK, "R18.8", "genContent/build-tag-separators-agree-with-the-constraint-line", prog.pos(modelPos), "tags are joined with "+strconv.Quote(wantSep)+" for a "+form+" line, and the leading separator removed",
+		fmt.Sprintf("the template writes the tags on a %s line, which joins terms with %q; separators not of that form: [%s]; leading separator removed consistently: %v: the generated constraint line is malformed (a leading or foreign separator), so the wrapper of a package extracted with tags does not build or is selected on the wrong platforms", form, wantSep, strings.Join(bad, ", "), trimSeen && trimOK))
+}
+
+func c18R9(prog *Prog, pk *packages.Package, r *Report) {
+	info := pk.TypesInfo
+	mutating := map[string]bool{"Quo": true, "Rem": true, "Mod": true, "Div": true, "QuoRem": true, "DivMod": true, "Mul": true, "Add": true, "Sub": true, "Set": true, "SetInt64": true, "SetUint64": true, "SetString": true, "SetBit": true, "Neg": true, "Abs": true, "Exp": true, "Lsh": true, "Rsh": true, "And": true, "Or": true, "Xor": true, "Not": true, "GCD": true, "Sqrt": true}
+	n := 0
+	for name, fi := range funcs(pk) {
+		if fi.Decl.Body == nil {
+			continue
+		}
+		// locals aliasing a Rat's numerator/denominator
+		alias := map[types.Object]string{}
+		ast.Inspect(fi.Decl.Body, func(m ast.Node) bool {
+			as, ok := m.(*ast.AssignStmt)
+			if !ok || len(as.Lhs) != len(as.Rhs) {
+				return true
+			}
+			for i, rhs := range as.Rhs {
+				c, ok := unparen(rhs).(*ast.CallExpr)
+				if !ok {
+					continue
+				}
+				if f, ok := calleeOf(info, c).(*types.Func); ok && f.Pkg() != nil && f.Pkg().Path() == "math/big" && (f.Name() == "Denom" || f.Name() == "Num") {
+					if id := identOf(as.Lhs[i]); id != nil {
+						alias[info.ObjectOf(id)] = types.ExprString(rhs)
+					}
+				}
+			}
+			return true
+		})
+		k := 0
+		ast.Inspect(fi.Decl.Body, func(m ast.Node) bool {
+			c, ok := m.(*ast.CallExpr)
+			if !ok {
+				return true
+			}
+			f, ok := calleeOf(info, c).(*types.Func)
+			if !ok || f.Pkg() == nil || f.Pkg().Path() != "math/big" || !mutating[f.Name()] {
+				return true
+			}
+			sg := f.Type().(*types.Signature)
+			if sg.Recv() == nil || !strings.HasSuffix(types.TypeString(sg.Recv().Type(), nil), "big.Int") {
+				return true
+			}
+			se, ok := unparen(c.Fun).(*ast.SelectorExpr)
+			if !ok {
+				return true
+			}
+			n++
+			src := ""
+			if id := identOf(se.X); id != nil {
+				src = alias[info.ObjectOf(id)]
+			} else if rc, ok := unparen(se.X).(*ast.CallExpr); ok {
+				if g, ok := calleeOf(info, rc).(*types.Func); ok && g.Pkg() != nil && g.Pkg().Path() == "math/big" && (g.Name() == "Denom" || g.Name() == "Num") {
+					src = types.ExprString(se.X)
+				}
+			}
+			if src == "" {
+				return true
+			}
+			k++
+			r.Fail("R18.9", fmt.Sprintf("%s/big.Int-of-a-constant-mutated#%d", name, k), prog.pos(c.Pos()),
+				name+" applies the mutating method big.Int."+f.Name()+" to "+types.ExprString(se.X)+", which is "+src+": the result aliases the rational held by the constant of the type-checked package, so the constant itself is changed (its later uses, and the value emitted for it, are wrong)")
+			return true
+		})
+	}
+	failed := false
+	for _, o := range r.Obls {
+		if o.Rule == "R18.9" && !o.OK {
+			failed = true
+		}
+	}
+	if !failed {
+		r.Pass("R18.9", "extract/no-big.Int-of-a-constant-mutated", "", fmt.Sprintf("%d mutating big.Int calls, none on a value returned by Rat.Denom/Num", n))
+	}
 }
